@@ -1,3 +1,4 @@
+pub mod byz;
 pub mod crash;
 pub mod lock;
 pub mod model;
@@ -21,6 +22,7 @@ pub fn generate(engine: &str, prop: &str, seed: u64, thorough: bool) -> Trace {
         "serve" => serve::generate(seed, prop, thorough),
         "trust" => trust::generate(seed, prop, thorough),
         "model" => model::generate(seed, prop, thorough),
+        "byz" => byz::generate(seed, prop, thorough),
         _ => panic!("unknown engine {engine}"),
     }
 }
@@ -35,6 +37,7 @@ pub fn directed(engine: &str, prop: &str) -> Vec<Trace> {
         "serve" => serve::directed(prop),
         "trust" => trust::directed(prop),
         "model" => model::directed(prop),
+        "byz" => byz::directed(prop),
         _ => vec![],
     }
 }
@@ -49,6 +52,7 @@ pub fn execute(trace: &Trace, keep_log: bool) -> (RunReport, Vec<String>) {
         "serve" => serve::execute(trace, keep_log),
         "trust" => trust::execute(trace, keep_log),
         "model" => model::execute(trace, keep_log),
+        "byz" => byz::execute(trace, keep_log),
         e => panic!("unknown engine {e}"),
     }
 }
@@ -252,6 +256,39 @@ pub fn specs() -> Vec<PropSpec> {
             assumptions: &["accept/refuse expectations come from the construction of each edit (documented compatibility rules)"],
             real: repl_real,
             stub: &["no network in this engine"],
+            batch: 1,
+        },
+        PropSpec {
+            id: "C02",
+            engine: "byz",
+            budget_s: (50, 600),
+            level: "exploration",
+            rule: "honest source H, honest victim V, adversary M holding its own key (own-rows right on one entity of room r1, from a known date, possibly disabled later) and every validly signed row it was served; V runs its real pull of r1 while M rewrites H's answers: 13 operators (row of another room, author without right, dated before enabled / after disabled, foreign row replaced or deleted with the own-rows right only, tampered fields under the original signature, oversized, model-violating, unknown entity, reference whose source row is elsewhere, row moved from a room without right, and a legitimate row as control), interleaved with honest writes, honest pulls and the disabling of M; after each session nothing injected may be found in any table of V and V's copy of the attacked rows is unchanged; distinct = distinct schedule signature (operators, answers actually rewritten, session outcome)",
+            assumptions: &["the adversary cannot forge signatures of keys it does not hold (ed25519 is real in the run)", "an operator whose answer kind was never requested in the session is counted as not applied"],
+            real: repl_real,
+            stub: STUB_NET,
+            batch: 1,
+        },
+        PropSpec {
+            id: "C06",
+            engine: "byz",
+            budget_s: (40, 600),
+            level: "exploration",
+            rule: "as C02 with the signature operators: a validly signed reference re-cut at the boundary between its unlength-prefixed fields (source entity \"11\" + label \"32\" -> \"1\" + \"132\", both reference fields of a model built for the purpose), and rows / references in H's name whose signature is the answer H gives to an identity challenge chosen by M; nothing H did not write may be stored by V under H's key",
+            assumptions: &["splices need adjacent variable-length fields in the digest: only references have them (rows serialise their fields through JSON and fixed-size values)"],
+            real: repl_real,
+            stub: STUB_NET,
+            batch: 1,
+        },
+        PropSpec {
+            id: "C07",
+            engine: "byz",
+            budget_s: (40, 600),
+            level: "exploration",
+            rule: "as C02 with the room-definition operators: M claims a newer definition date and substitutes the definition V imports (real add_room_node / prepare_room_with_history): older definition with entries omitted, admin-signed user entry re-attached as admin or moved to the all-rights group by a reference M signs, self-signed admin / right / user-admin entries, right entry of another room; V's stored entries before must all be stored unchanged after, nothing new stored, and V's decision grid {3 identities} x {entities} x {dates} x {admin, member, own, all} unchanged",
+            assumptions: &["none of the crafted definitions contains an entry added by somebody entitled to, so any change is a violation"],
+            real: repl_real,
+            stub: STUB_NET,
             batch: 1,
         },
     ]
